@@ -14,6 +14,7 @@ import (
 
 	"gitee.com/xuesongtao/protoc-go-valid/valid"
 	"vmon/internal/core"
+	"vmon/internal/drive"
 )
 
 // C12 — a call's result depends only on its own arguments and stays fixed afterwards.
@@ -138,6 +139,7 @@ func runC12(c *core.Ctx) {
 		return
 	}
 	res.Assume("results are compared as sorted clause lists; functions inside Name2FnMap values are compared by key set only")
+	c12UrlRepeat(res)
 	specs := newSpecGen(c12Seed(c), 12).list(n)
 	twins := newSpecGen(c12Seed(c), 12).list(n)
 	rng := c.Rng("orders")
@@ -313,6 +315,51 @@ func runC12(c *core.Ctx) {
 		}
 	}
 	res.Count("retained_strings", int64(len(keep)))
+}
+
+// c12UrlRepeat: a URL lists its parameters in an order of its own, so nothing in a Url call is a Go map on the input
+// side: the very same call, repeated, returns the very same text (for map inputs the order of entries is left open and
+// only the sorted clause lists are compared). Rule sets of every shape that could tempt an implementation into iterating
+// a Go map for the order: two or more required keys absent from the query, keys that differ only in letter case,
+// present and absent keys mixed, groups.
+func c12UrlRepeat(res *core.Result) {
+	type cs struct {
+		url string
+		rm  valid.RM
+	}
+	cases := []cs{
+		{"http://h.example/p?other=x", valid.RM{"a": "required", "b": "required"}},
+		{"http://h.example/p?other=x", valid.RM{"ID": "required|m1", "id": "required|m2"}},
+		{"http://h.example/p?other=x", valid.RM{"zeta": "required", "Alpha": "required", "alpha": "required", "beta": "required,to=1~3"}},
+		{"http://h.example/p?b=&a=toolong&c=1", valid.RM{"a": "to=1~3|ma", "b": "required|mb", "c": "ge=5|mc", "d": "required|md", "e": "required"}},
+		{"/p?x=1&y=22&z=", valid.RM{"x": "either=1", "y": "either=1,le=1|my", "z": "required", "w": "required", "v": "required"}},
+		{"?k=v", valid.RM{"K": "required", "k": "to=3~5|mk", "kk": "required"}},
+	}
+	for _, c := range cases {
+		first := ""
+		for rep := 0; rep < 60; rep++ {
+			rm := valid.RM{}
+			for k, v := range c.rm { // a fresh rule map every time: its internal layout differs from call to call
+				rm[k] = v
+			}
+			out := drive.Call(func() error { return valid.Url(c.url, rm) })
+			res.Eval()
+			res.Count("url_repeat_calls")
+			if out.Panic != "" {
+				res.Violate("C12|url-repeat|panic", fmt.Sprintf("Url(%q, %v) panicked: %s", c.url, c.rm, out.Panic), nil)
+				break
+			}
+			if rep == 0 {
+				first = out.String()
+				continue
+			}
+			if got := out.String(); got != first {
+				res.Violate("C12|url-repeat|text-differs-between-identical-calls", fmt.Sprintf("Url(%q, %v) returned %q at the first call and %q at repetition %d", c.url, c.rm, trunc(first, 300), trunc(got, 300), rep),
+					map[string]string{"url": c.url, "rules": fmt.Sprint(c.rm), "first": first, "later": got})
+				break
+			}
+		}
+	}
 }
 
 func hashStr(s string) uint64 {
